@@ -32,7 +32,7 @@ EXPLANATION = ("The console's posting, finishing and sending helpers are loop-fr
                "are folded over the small state (token present, cursor, pending length) and checked for guards, field writers and "
                "operand provenance.")
 CONFIGS = ['def', 'alloc', 'def-rel']    # these drivers need the `alloc` feature
-FLOORS = {'reader_fns': {'*': 4, 'alloc': 1}, 'trait_writers': {'*': 2, 'alloc': 1}, 'poster_fns': 1, 'finisher_fns': 1, 'send_fns': 2}
+FLOORS = {'reader_fns': {'*': 4, 'alloc': 1}, 'trait_writers': {'*': 2, 'alloc': 1}, 'poster_fns': 1, 'finisher_fns': 1, 'send_fns': 1}
 DRV = 'device::console::VirtIOConsole'
 
 
@@ -60,6 +60,25 @@ def run(F, R):
             finishers.append(b)
         if 'add_notify_wait_pop' in fns:
             senders.append(b)
+    # a finisher that receives the token as a parameter is a helper: the function that supplies the token is analysed
+    # instead, with the helper inlined
+    direct_finishers = list(finishers)
+    for _ in range(2):
+        nxt = []
+        for b in finishers:
+            sg0 = supergraph(F, b['id'], tag='flat', max_depth=0)
+            by_param = False
+            for n in sg0.calls(lambda d: roles.get(d.get('fn')) == 'pop_used'):
+                tk = strip_conv(sg0.sym.operand(n.id, n.d['args'][1]))
+                if tk[0] == 'param' and tk[1] >= 2:
+                    by_param = True
+            callers = [c for c in F.bodies.values() if c.get('impl_adt') == DRV and 'impl_trait' not in c and F.handwritten(c) and c['kind'] == 'AssocFn'
+                       and any(bl['term']['k'] == 'call' and bl['term'].get('fn') == b['id'] for bl in c['blocks'])]
+            if by_param and callers and not b.get('pub'):
+                nxt.extend(c for c in callers if c not in nxt)
+            elif b not in nxt:
+                nxt.append(b)
+        finishers = nxt
     R.count('poster_fns', len(posters))
     R.count('finisher_fns', len(finishers))
     R.count('send_fns', len(senders))
@@ -95,7 +114,7 @@ def run(F, R):
     for b in senders:
         s3_send(F, R, M, b, roles, rxq)
     s5_trait_writers(F, R, set(x['id'] for x in senders))
-    s7_reader_arithmetic(F, R, usz, list(bufs)[0] if len(bufs) == 1 else None, set(x['id'] for x in posters + finishers))
+    s7_reader_arithmetic(F, R, usz, list(bufs)[0] if len(bufs) == 1 else None, set(x['id'] for x in posters + finishers + direct_finishers))
     from .C19 import q6_no_access_after_post
     q6_no_access_after_post(F, R, M, roles, rule='S6', only=lambda bb: bb.get('impl_adt') == DRV or DRV in (bb.get('impl_self') or ''))
 
